@@ -19,6 +19,7 @@ their escapes were doubled), the model's count of dicts in the outer parse must 
 object-hook calls observed on the real decoder, and `splitPlain` must agree with `_split_plaintext`.
 """
 import itertools
+import copy
 import json
 import math
 import time
@@ -111,12 +112,13 @@ class HookSpy:
 
 def build_event(s):
     k = s['k']
+    data = copy.deepcopy(s['data'])        # the event owns its data (the harness changes it in place later; the spec stays)
     if k == 'S':
-        return BoboEventSimple(s['id'], s['ts'], s['data'])
+        return BoboEventSimple(s['id'], s['ts'], data)
     if k == 'A':
-        return BoboEventAction(s['id'], s['ts'], s['data'], s['phen'], s['pat'], s['act'], s['ok'])
+        return BoboEventAction(s['id'], s['ts'], data, s['phen'], s['pat'], s['act'], s['ok'])
     if k == 'C':
-        return BoboEventComplex(s['id'], s['ts'], s['data'], s['phen'], s['pat'], build_hist(s['hist']))
+        return BoboEventComplex(s['id'], s['ts'], data, s['phen'], s['pat'], build_hist(s['hist']))
     raise ValueError(k)
 
 
@@ -477,7 +479,36 @@ def real_path(wire: Wire, specs, layout, msg_type, flags):
         d = hist_diff(r.history, h2, 'history')
         if d:
             return ('record-differs', 'BoboHistory.from_json_str(to_json_str()) differs: ' + d), obs
+    # the same records once more AFTER their owner changed event data in place (one reading dict reused by a sensor loop, a
+    # live status list): what goes on the wire now is the state as it is now, not a text remembered from the first time
+    changed = [r for r in runs if mutate_in_place(r.history)]
+    if changed:
+        out3 = wire.tx._outgoing_to_json({MSG_KEYS[0]: changed, MSG_KEYS[1]: [], MSG_KEYS[2]: list(changed)})
+        back = wire.rx._incoming_from_json(out3)
+        for pos, (r, g) in enumerate(zip(changed, back[MSG_KEYS[0]])):
+            d = run_diff(r, g, f'second-serialisation[{pos}]')
+            if d:
+                return ('record-differs', 'a record serialised again after event data changed in place arrives with the OLD state: ' + d), obs
     return None, obs
+
+
+def mutate_in_place(h, _n=[0]):
+    """append to every list / set a key in every dict that is the data of an event of the history (any depth)"""
+    k = 0
+    for _, evs in h.events.items():
+        for e in evs:
+            d = e.data
+            if type(d) is dict:
+                _n[0] += 1
+                d['zz_late'] = _n[0]
+                k += 1
+            elif type(d) is list:
+                _n[0] += 1
+                d.append(_n[0])
+                k += 1
+            if isinstance(e, BoboEventComplex):
+                k += mutate_in_place(e.history)
+    return k
 
 
 def run_case(wire, res, family, spec, prev, k, lines, expect, cases_for_model):
